@@ -214,6 +214,10 @@ def run(rep, tier, seed, pa):
         units = gen.gen_units(rng, n, sizes, rng.choice(gen.PATTERNS), gen.LABEL_SETS["abc"])
         if sum(len(u) for u in units) == 0:
             continue
+        if ri % 3 == 1:      # timelines below zero (int() truncates towards zero there, floor / ceil do not)
+            off = max(e for us in units for (_, e, _) in us) + rng.choice([0.0, 4.0, 17.0])
+            units = [[(s - off, e - off, l) for (s, e, l) in us] for us in units]
+            rep.count("negative_timeline")
         cont = gen.build_continuum(pa, units)
         names = list(cont.annotators)
         gts = names if rng.random() < 0.5 or n < 3 else sorted(rng.sample(names, rng.randrange(2, n + 1)))
@@ -223,11 +227,22 @@ def run(rep, tier, seed, pa):
             # one sampler object per pivot type, re-initialised on every reference: nothing of an earlier reference may leak
             sampler = shared.setdefault(pivot_type, pa.ShuffleContinuumSampler(pivot_type=pivot_type))
             sampler.init_sampling(cont, gts)
-            for rep_i in range(3 if tier == "quick" else 5):
+            nrec = 3 if tier == "quick" else 5
+            for rep_i in range(nrec + 2):
                 np.random.seed(rng.randrange(2 ** 31))
                 desc = {"units": units, "ground_truth": list(gts), "pivot_type": pivot_type}
+                policy = None
+                if rep_i >= nrec:
+                    # steered draws: every uniform lands in the last / first 2% of whatever interval the library offers (the corners where
+                    # rounding a pivot can leave the chosen segment), annotator and segment choices stay random
+                    def policy(name, args, n, _r=rng):
+                        if name == "uniform" and len(args) >= 2 and args[1] > args[0]:
+                            t = _r.choice([0.004, 0.017, 0.983, 0.996, 0.5])
+                            return float(args[0] + (args[1] - args[0]) * t)
+                        return None
+                    rep.count("steered_samples")
                 try:
-                    with Draws() as dr:
+                    with Draws(policy=policy) as dr:
                         sample = sampler.sample_from_continuum
                     log = dr.log
                 except Exception as e:
@@ -292,6 +307,26 @@ def run(rep, tier, seed, pa):
                           "scripted draws 37.2 then 39.7 (integer mode, half average length 2.5) give pivots %r" % (pv,))
     except Exception as e:
         rep.violation("script-raises", {"error": repr(e)}, "scripted witness raised %r no-failing-input-found" % (e,))
+    # the mirrored witness below zero: draws -37.2 then -39.7 (int() truncates towards zero: -39 is inside the first pivot's exclusion zone)
+    cont = pa.Continuum()
+    for a in ("a", "b"):
+        cont.add(a, Segment(-100.0, -95.0), "A")
+        cont.add(a, Segment(-5.0, 0.0), "A")
+    s = pa.ShuffleContinuumSampler(pivot_type="int_pivot")
+    s.init_sampling(cont)
+    script = [("choice", 0), ("uniform", -37.2), ("choice", 0), ("choice", 0), ("uniform", -39.7), ("choice", 0)]
+    try:
+        with Draws(script=script) as dr:
+            smp = s.sample_from_continuum
+        # every unit is moved by the pivot (no wrap here: all starts stay below the upper bound 0), so pivot = smallest start + 100
+        pivots = [min(u.segment.start for u in smp["Sampled_annotation %d" % i]) + 100.0 for i in range(2)]
+        rep.case(sample={"scripted": "negative int witness", "pivots": pivots})
+        rep.count("scripted_witness")
+        if abs(pivots[0] - pivots[1]) < 2.5:
+            rep.violation("int-pivots-too-close", {"script": script, "pivots": pivots},
+                          "scripted draws -37.2 then -39.7 (integer mode, half average length 2.5) give pivots %r" % (pivots,))
+    except Exception as e:
+        rep.violation("script-raises", {"error": repr(e)}, "scripted negative witness raised %r no-failing-input-found" % (e,))
     sample = [l for l in lines if len(l) < 600][:6]
     coq = coq_eval(sample)
     oc = run_model(sample)
